@@ -28,8 +28,17 @@ use tfharness::values::*;
 
 const HARNESS_DIR: &str = env!("CARGO_MANIFEST_DIR");
 const KINDS_SCHEMA: &str = include_str!("../../py/kinds.graphql");
-const QUERY_DIR: &str = "/repo/trustfall_core/test_data/tests/valid_queries";
-const NUMBERS_SCHEMA_PATH: &str = "/repo/trustfall_core/test_data/schemas/numbers.graphql";
+/// Root of the repository under test: `VERIF_REPO_ROOT` (set by ./mutcheck to its private copy),
+/// default `/repo`.
+fn repo_root() -> String {
+    std::env::var("VERIF_REPO_ROOT").unwrap_or_else(|_| "/repo".to_string())
+}
+fn query_dir() -> String {
+    format!("{}/trustfall_core/test_data/tests/valid_queries", repo_root())
+}
+fn numbers_schema_path() -> String {
+    format!("{}/trustfall_core/test_data/schemas/numbers.graphql", repo_root())
+}
 const ROW_LIMIT: usize = 3000;
 
 // ------------------------------------------------------------------------------------------------
@@ -216,8 +225,11 @@ struct Helper {
 
 impl Helper {
     fn start() -> Helper {
-        let scratch = std::env::var("C27_SCRATCH").unwrap_or_else(|_| "/tmp/verif-c27-ext".to_string());
-        let repo = std::env::var("C27_REPO").unwrap_or_else(|_| "/repo".to_string());
+        let repo = repo_root();
+        // the real tree and private mutant copies keep separate cargo target dirs
+        let scratch = std::env::var("C27_SCRATCH").unwrap_or_else(|_| {
+            if repo == "/repo" { "/tmp/verif-c27-ext".to_string() } else { "/tmp/verif-c27-ext-mut".to_string() }
+        });
         let out = Command::new(format!("{HARNESS_DIR}/py/build_ext.sh"))
             .arg(&repo)
             .arg(&scratch)
@@ -236,7 +248,7 @@ impl Helper {
             .arg(format!("{HARNESS_DIR}/py/c27_helper.py"))
             .env("C27_PKG_DIR", &pkg)
             .env("C27_SCHEMA_KINDS", kinds_path)
-            .env("C27_SCHEMA_NUMBERS", NUMBERS_SCHEMA_PATH)
+            .env("C27_SCHEMA_NUMBERS", numbers_schema_path())
             .env("RUST_BACKTRACE", "0")
             .env("PYTHONDONTWRITEBYTECODE", "1")
             .stdin(Stdio::piped())
@@ -716,7 +728,7 @@ impl C27 {
         if !stem.bytes().all(|c| c.is_ascii_alphanumeric() || c == b'_' || c == b'-') {
             return None;
         }
-        let text = std::fs::read_to_string(format!("{QUERY_DIR}/{stem}.graphql.ron")).ok()?;
+        let text = std::fs::read_to_string(format!("{}/{stem}.graphql.ron", query_dir())).ok()?;
         let test: TestGraphQLQuery = ron::from_str(&text).ok()?;
         if test.schema_name != "numbers" {
             return None;
@@ -943,13 +955,13 @@ fn args_sexp(args: &BTreeMap<String, Py>) -> Sexp {
 
 fn numbers_tests() -> Vec<(String, TestGraphQLQuery)> {
     let mut out = vec![];
-    let mut names: Vec<String> = std::fs::read_dir(QUERY_DIR)
+    let mut names: Vec<String> = std::fs::read_dir(query_dir())
         .map(|d| d.filter_map(|e| e.ok()).map(|e| e.file_name().to_string_lossy().to_string()).collect())
         .unwrap_or_default();
     names.sort();
     for n in names {
         let Some(stem) = n.strip_suffix(".graphql.ron") else { continue };
-        let Ok(text) = std::fs::read_to_string(format!("{QUERY_DIR}/{n}")) else { continue };
+        let Ok(text) = std::fs::read_to_string(format!("{}/{n}", query_dir())) else { continue };
         let Ok(test) = ron::from_str::<TestGraphQLQuery>(&text) else { continue };
         if test.schema_name == "numbers" {
             out.push((stem.to_string(), test));
